@@ -487,10 +487,9 @@ def root_field(fl, e, depth=0):
             # bound from an AST node pattern: name the field
             f = fields[-1][2]
             inner = ""
-            if o["kind"] == "iflet":
-                src = peel_clone(o["src"])
-                if fields[-1][1].endswith("Option::Some"):
-                    return root_field(fl, src, depth + 1)
+            if o["kind"] in ("iflet", "arm") and len(fields) == 1 and fields[-1][1].endswith("Option::Some"):
+                # `if let Some(x) = <e>` / `match <e> { Some(x) => .. }`: x is <e>, the Option only says whether it is there
+                return root_field(fl, peel_clone(o["src"]), depth + 1)
             if fields[-1][1].endswith("Option::Some") and len(fields) >= 2:
                 f = fields[-2][2]
             return f + inner
@@ -557,6 +556,11 @@ def uncond_loop_nodes(n):
         return
     if k == "Match":
         yield from uncond_loop_nodes(n["scrut"])
+        # `match <optional child> { Some(x) => { obligations about x }, None => .. }` is `if let Some(x) = ..` in another dress
+        if "core::option::Option<" in (n.get("scrut_ty") or "") and len(n["arms"]) == 2:
+            for a in n["arms"]:
+                if any((pat_variant(alt) or "").endswith("Option::Some") for alt in pat_alternatives(a["pat"])):
+                    yield from uncond_loop_nodes(a["body"])
         return
     if k == "Binary" and n.get("op") in ("And", "Or"):
         yield from uncond_loop_nodes(n["l"])
